@@ -5,6 +5,7 @@ import AsmjitVerif.Model.Tree
 import AsmjitVerif.Model.ListPool
 import AsmjitVerif.Model.Bits
 import AsmjitVerif.Model.Str
+import AsmjitVerif.Model.ArenaStr
 import AsmjitVerif.Spec.C18
 import Driver.Common
 import Driver.MonC18
@@ -44,6 +45,7 @@ structure MS where
   heap : ListPool.Heap := #[{}]
   bits : List (Nat × Bits.BitSet) := []
   strs : List (Nat × Str.Str) := []
+  astrs : List (Nat × ArenaStr.AStr) := []
   deriving Inhabited
 
 def locStr (a : State) : Option Loc → String
@@ -52,7 +54,7 @@ def locStr (a : State) : Option Loc → String
   | some (.managed p o) => s!"b{p}:{a.blocks.getD p 0}+{o}"
 
 def dropContainers (m : MS) : MS :=
-  { m with handles := [], vecs := [], hashes := [], trees := [], pool := {}, lists := [], heap := #[{}], bits := [] }
+  { m with handles := [], vecs := [], hashes := [], trees := [], pool := {}, lists := [], heap := #[{}], bits := [], astrs := [] }
 
 /-! ### arena -/
 def arenaOp (m : MS) (w : List String) : MS × String :=
@@ -83,6 +85,18 @@ def arenaOp (m : MS) (w : List String) : MS × String :=
       match alGet m.handles h with
       | none => (m, "bad-op")
       | some (p, asz) => ({ m with arena := some (freeReusable ar p asz), handles := m.handles.filter (·.1 != h) }, "ok loc=none")
+    | ["A", "dup", hx, nt] =>
+      match (hexToBytes? hx).map (·.map (·.toNat)) with
+      | none => (m, "bad-op")
+      | some bs =>
+        match ArenaStr.dup ar bs (nt == "1") with
+        | (ar', none) => ({ m with arena := some ar' }, "null")
+        | (ar', some (p, asz, blk)) =>
+          ({ m with arena := some ar' }, s!"ok loc={locStr ar' (some p)} bytes={asz} s=" ++
+            String.ofList ((blk.take bs.length).flatMap fun b => [hexChar (b / 16 % 16), hexChar (b % 16)]) ++
+            " pad0=" ++ b01 ((blk.drop bs.length).all (· == 0)))
+    | ["A", "pool", "count"] => (m, s!"ok r={m.pool.free.length}")
+    | ["A", "pool", "reset"] => ({ m with pool := {} }, "ok r=0")
     | ["A", "reset", pol] => ({ dropContainers m with arena := some (reset ar (pol == "hard")) }, "ok")
     | ["A", "stats"] =>
       let (bc, used, res, ov) := statistics ar
@@ -140,6 +154,15 @@ def vecOp (m : MS) (ar : State) (id item : Nat) (v : AsmjitVerif.Vector.Vec) (w 
   | "index_of" => fin ar v "ok" (" r=" ++ match AsmjitVerif.Vector.indexOf v (a % u32) with | some i => toString i | none => "none")
   | "last_index_of" => fin ar v "ok" (" r=" ++ match AsmjitVerif.Vector.lastIndexOf v (a % u32) with | some i => toString i | none => "none")
   | "contains" => fin ar v "ok" (" r=" ++ b01 (AsmjitVerif.Vector.contains v (a % u32)))
+  | "iter" => fin ar v "ok" (" r:" ++ listOrHash ((AsmjitVerif.Vector.items v).map toString))
+  | "riter" => fin ar v "ok" (" r:" ++ listOrHash ((AsmjitVerif.Vector.items v).reverse.map toString))
+  | "first_last" => if v.size = 0 then fin ar v "precond" else
+      fin ar v "ok" s!" r={(AsmjitVerif.Vector.items v).headD 0},{(AsmjitVerif.Vector.items v).getLastD 0}"
+  | "span_eq" =>
+    match alGet m.vecs a with
+    | some (item2, o) => if item2 ≠ item ∨ a = id then (m, "bad-op") else
+      fin ar v "ok" (" r=" ++ b01 (AsmjitVerif.Vector.items v == AsmjitVerif.Vector.items o))
+    | none => (m, "bad-op")
   | "info" => fin ar v "ok"
   | _ => (m, "bad-op")
 
@@ -389,6 +412,28 @@ def strOp (m : MS) (id : Nat) (s : Str.Str) (w : List String) : MS × String :=
   | "eq" => hexArg fun bs => fin s "ok" (" r=" ++ b01 (Str.equals s bs))
   | _ => (m, "bad-op")
 
+/-! ### ArenaString -/
+def astrState (ar : State) (z : ArenaStr.AStr) : String :=
+  let c := ArenaStr.content z
+  let loc := if z.isEmbedded then "none" else match z.ext with | some (p, _, _) => locStr ar (some p) | none => "none"
+  let nul := if z.size == 0 && !z.isEmbedded then "?" else b01 (ArenaStr.terminated z)
+  s!" n={z.size} emb={b01 z.isEmbedded} loc={loc} bytes={alignUp (z.size + 1) 8} nul={nul} s=" ++
+    (if c.isEmpty then "-" else bytesHex c) ++ s!" whole={z.whole}"
+
+def astrOp (m : MS) (ar : State) (id : Nat) (z : ArenaStr.AStr) (w : List String) : MS × String :=
+  match w.getD 2 "" with
+  | "set" =>
+    match hexBytes? (w.getD 3 "") with
+    | none => (m, "bad-op")
+    | some bs =>
+      match ArenaStr.setData ar z bs with
+      | none => (m, "MODEL-OVERRUN")
+      | some (ar', z', e) =>
+        ({ m with arena := some ar', astrs := alSet m.astrs id z' }, (match e with | .ok => "ok" | .oom => "oom") ++ astrState ar' z')
+  | "reset" => let z' := ArenaStr.reset z
+               ({ m with astrs := alSet m.astrs id z' }, "ok" ++ astrState ar z')
+  | _ => (m, "bad-op")
+
 def primesLine : String :=
   let rows := AsmjitVerif.Gen.hashPrimes
   let h := rows.foldl (fun h (p, r, s, g) => fnvStr h s!"{p},{r},{s},{g};") fnvInit
@@ -414,6 +459,8 @@ def modelStep (m : MS) (line : String) : MS × String :=
       | "T", _ => if (alGet m.trees id).isSome then (m, "bad-op") else ({ m with trees := alSet m.trees id {} }, "ok")
       | "L", _ => if (alGet m.lists id).isSome then (m, "bad-op") else ({ m with lists := alSet m.lists id {} }, "ok")
       | "B", _ => if (alGet m.bits id).isSome then (m, "bad-op") else ({ m with bits := alSet m.bits id {} }, "ok")
+      | "Z", [n] => if (nat n ≠ 16 ∧ nat n ≠ 40) ∨ (alGet m.astrs id).isSome then (m, "bad-op")
+                    else ({ m with astrs := alSet m.astrs id (ArenaStr.new (nat n)) }, "ok")
       | _, _ => (m, "bad-op")
   | c :: idS :: _ :: _ =>
     let id := nat idS
@@ -428,6 +475,7 @@ def modelStep (m : MS) (line : String) : MS × String :=
       | "T" => match alGet m.trees id with | some e => treeOp m ar id e w | none => (m, "bad-op")
       | "L" => match alGet m.lists id with | some l => listOp m ar id l w | none => (m, "bad-op")
       | "B" => match alGet m.bits id with | some b => bitsOp m ar id b w | none => (m, "bad-op")
+      | "Z" => match alGet m.astrs id with | some z => astrOp m ar id z w | none => (m, "bad-op")
       | _ => (m, "bad-op")
   | _ => (m, "bad-op")
 
